@@ -71,7 +71,10 @@ def build(data, pfx="", maxn=5, allow_include=True):
     levels = []
     for i in range(n):
         lv = {"defs": {}, "attrs": {}, "body": [], "blocks": {}, "page": g.chance(40), "inherit": None,
-              "dir": g.pick(["", "", "a/", "b/"]) if i else "", "pagekw": g.chance(35)}
+              "dir": g.pick(["", "", "a/", "b/"]) if i else "", "pagekw": g.chance(35),
+              # where the <%! %> block of module attributes is written: at the top level, or inside a def / block body
+              # ("module-level blocks can be declared anywhere")
+              "attrs_in": g.pick(["top", "top", "def", "block"])}
         for d in DEFS:
             if g.chance(45):
                 lv["defs"][d] = None
@@ -289,11 +292,22 @@ def emit_level(case, i, uris):
     if lv["page"]:
         # (optionally with a catch-all of its own: named blocks are handed the extra page arguments whatever it is called)
         src.append("<%%page args=\"x='dx'%s\"/>" % (", **pkw" if lv.get("pagekw") else ""))
+    modblock = ""
     if lv["attrs"]:
-        src.append("<%!\n" + "".join("    %s = %r\n" % kv for kv in sorted(lv["attrs"].items())) + "%>")
-    for d in sorted(lv["defs"]):
-        src.append('<%%def name="%s()">%s</%%def>' % (d, emit_items(lv["defs"][d])))
+        modblock = "<%!\n" + "".join("    %s = %r\n" % kv for kv in sorted(lv["attrs"].items())) + "%>"
+    where = lv.get("attrs_in", "top")
+    if modblock and (where == "top" or (where == "def" and not lv["defs"])):
+        src.append(modblock)
+        modblock = ""
+    for k, d in enumerate(sorted(lv["defs"])):
+        inner = emit_items(lv["defs"][d])
+        if modblock and where == "def" and k == 0:
+            inner, modblock = modblock + inner, ""
+        src.append('<%%def name="%s()">%s</%%def>' % (d, inner))
     body = emit_items(lv["body"])
+    if modblock:
+        # inside an anonymous block at the very end of the body (it writes nothing)
+        body += "<%block>" + modblock + "</%block>"
     if lv["page"]:
         body = body.replace("[L%d:" % i, "[L%d:x=${x}:" % i, 1)
     src.append(body)
